@@ -7,8 +7,6 @@ package main
 
 import (
 	"fmt"
-	"os"
-	"path/filepath"
 	"reflect"
 	"time"
 	"unsafe"
@@ -70,7 +68,6 @@ type world struct {
 	byHash map[chainhash.Hash]*block
 	byFHdr map[chainhash.Hash]*block
 	now    time.Time
-	tmpl   string // directory with the stores of the initial state
 }
 
 func simParams() *chaincfg.Params {
@@ -95,7 +92,7 @@ func mine(p *chaincfg.Params, parent *wire.BlockHeader, salt uint32) *wire.Block
 	}
 }
 
-func newWorld(cfg Cfg, base string, genesisFilter chainhash.Hash) (*world, error) {
+func newWorld(cfg Cfg, genesisFilter chainhash.Hash) (*world, error) {
 	p := simParams()
 	w := &world{cfg: cfg, params: p, byHash: map[chainhash.Hash]*block{}, byFHdr: map[chainhash.Hash]*block{}}
 	add := func(b *block, parent *block) {
@@ -132,27 +129,19 @@ func newWorld(cfg Cfg, base string, genesisFilter chainhash.Hash) (*world, error
 	}
 	w.now = last.Add(100 * time.Second)
 
-	// stores of the initial state, built once and copied for every run
-	tmpl, err := storeh.Template(base)
-	if err != nil {
-		return nil, err
-	}
-	w.tmpl = filepath.Join(base, "cfg-"+cfg.key())
-	os.RemoveAll(w.tmpl)
-	if err := storeh.CopyDir(tmpl, w.tmpl); err != nil {
-		return nil, err
-	}
-	e := &storeh.Env{Dir: w.tmpl}
-	if err := e.Open(); err != nil {
-		return nil, err
-	}
-	defer e.Close()
+	return w, nil
+}
+
+// initStores writes the initial state of the configuration into stores that
+// hold only the genesis entries.
+func (w *world) initStores(e *storeh.Env) error {
+	cfg := w.cfg
 	var bhs []headerfs.BlockHeader
 	for h := 1; h <= cfg.T; h++ {
 		bhs = append(bhs, headerfs.BlockHeader{BlockHeader: w.old[h].Hdr, Height: uint32(h)})
 	}
 	if err := e.BS.WriteHeaders(bhs...); err != nil {
-		return nil, err
+		return err
 	}
 	if cfg.F0 > 0 {
 		var fhs []headerfs.FilterHeader
@@ -162,10 +151,10 @@ func newWorld(cfg Cfg, base string, genesisFilter chainhash.Hash) (*world, error
 		fhs[len(fhs)-1].HeaderHash = w.old[cfg.F0].Hash
 		fhs[len(fhs)-1].Height = uint32(cfg.F0)
 		if err := e.FS.WriteHeaders(fhs...); err != nil {
-			return nil, err
+			return err
 		}
 	}
-	return w, nil
+	return nil
 }
 
 // msgBlocks: the blocks the cfheaders message is for.
